@@ -269,10 +269,17 @@ func main() {
 		cadj[u] = res
 	}
 	// roots, reachable set
-	roots := []string{"(*" + mod + "pkg/device.state).compare", mod + "pkg/device.CompareFiles$1"}
-	for _, r := range roots {
-		if !kept[r] {
-			problem("root %s is not a node of the call graph", r)
+	// A root that the program no longer has is not an error of the translator: the list of roots is
+	// a fact, `roots_and_targets_named` states what it has to be — the tie breaks there.
+	wanted := []string{"(*" + mod + "pkg/device.state).compare", mod + "pkg/device.CompareFiles$1"}
+	var roots []string
+	isRoot := map[string]bool{}
+	for _, r := range wanted {
+		if kept[r] {
+			roots = append(roots, r)
+			isRoot[r] = true
+		} else {
+			fmt.Fprintf(os.Stderr, "callgraph: note: %s is not a node of the call graph (root omitted)\n", r)
 		}
 	}
 	// A compare RUN is the body of device.ApproveOrCompare with isCompare = true: besides
@@ -281,11 +288,11 @@ func main() {
 	// the else branch of `if isCompare`).  These callees are roots as well.
 	runBody := mod + "pkg/device.ApproveOrCompare$1"
 	if !kept[runBody] {
-		problem("%s is not a node of the call graph", runBody)
+		fmt.Fprintf(os.Stderr, "callgraph: note: %s is not a node of the call graph (no run roots)\n", runBody)
 	}
 	var runRoots []string
 	for _, v := range cadj[runBody] {
-		if strings.Contains(v, mod) && !strings.HasSuffix(v, ").approve") && v != roots[0] && v != roots[1] {
+		if strings.Contains(v, mod) && !strings.HasSuffix(v, ").approve") && !isRoot[v] {
 			runRoots = append(runRoots, v)
 		}
 	}
